@@ -70,7 +70,7 @@ end
 abbrev Frame := Env
 
 structure Macro where
-  params : List Name
+  params : List Param
   dirs : List Dir
   body : List CEv
   deriving Repr, Inhabited
@@ -174,7 +174,7 @@ def run : Nat → ITask → St → IRes
       let fv ← eval st.look f
       let vs ← evalArgs st.look args
       let m ← getMacro st fv
-      let scope ← bindParams m.params vs
+      let scope ← bindParams st.look m.params vs
       mapSt St.pop (run n (.apply m.dirs m.body) (st.push scope))
   | n + 1, .ev (.sub ds body), st => run n (.apply ds body) st
   | n + 1, .apply [] body, st => run n (.flat body) st
